@@ -494,7 +494,7 @@ DT_L = 0.125
 LTF_REC = 8 + 2 * 16  # bytes of one record of the two-variable complex test equation (checked at run time)
 
 
-def _controller(hooks):
+def _controller(hooks, nlam=2):
     from pySDC.implementations.controller_classes.controller_nonMPI import controller_nonMPI
     from pySDC.implementations.problem_classes.TestEquation_0D import testequation0d
     from pySDC.implementations.sweeper_classes.generic_implicit import generic_implicit
@@ -504,7 +504,7 @@ def _controller(hooks):
         'sweeper_class': generic_implicit,
         'problem_class': testequation0d,
         'sweeper_params': {'num_nodes': 1, 'quad_type': 'GAUSS'},
-        'problem_params': {'u0': 1.0, 'lambdas': np.array([-1.0 + 0.5j, -0.25 - 2.0j])},
+        'problem_params': {'u0': 1.0, 'lambdas': np.array([-1.0 + 0.5j, -0.25 - 2.0j, -0.5 + 1.0j][:nlam])},
         'step_params': {'maxiter': 1},
     }
     return controller_nonMPI(1, {'hook_class': hooks, 'logger_level': 90, 'dump_setup': False}, description)
@@ -538,12 +538,12 @@ def _make_hooks(path, allow):
     return FileHook, Recorder
 
 
-def _ltf_run(path, t0, u0bits, nsteps, allow=False):
+def _ltf_run(path, t0, u0bits, nsteps, allow=False, nlam=2):
     """One controller run with LogToFile over nsteps steps from t0. Returns ('ok', initial record, step records) or ('raised', e)."""
     FileHook, Recorder = _make_hooks(path, allow)
     saved = FieldsIO.ALLOW_OVERWRITE
     try:
-        c = _controller([FileHook, Recorder])
+        c = _controller([FileHook, Recorder], nlam)
         prob = c.MS[0].levels[0].prob
         u0 = prob.u_exact(0)
         if u0bits is not None:
@@ -573,6 +573,32 @@ def ltf_case(case):
         if bad:
             return {'what': 'first_run_' + bad[0], 'index': bad[1], 'detail': bad[2]}, {}
         s1 = crash.snapshot(path)
+        if case[0] == 'reload_after_replace':
+            # the hook's own reader (LogToFile.load) before and after the file of that name was replaced, with
+            # permission, by a run with another header (three instead of two components)
+            from pySDC.implementations.hooks.log_solution import LogToFile
+
+            saved_name = LogToFile.filename
+            LogToFile.filename = path
+            try:
+                for i in range(len(recs1)):
+                    got = LogToFile.load(i)
+                    if model.dbits(got['t']) != recs1[i][0] or np.asarray(got['u']).tobytes() != recs1[i][1]:
+                        return {'what': 'load_wrong_record', 'index': i, 'detail': {'phase': 'first file'}}, {}
+                r2 = _ltf_run(path, 0.0, None, case[1], allow=True, nlam=3)
+                if r2[0] != 'ok':
+                    return {'what': 'permitted_overwrite_raised', 'detail': {'raised': repr(r2[1])}}, {}
+                recs2 = [r2[1]] + r2[2]
+                for i in list(range(len(recs2))) + [-1]:
+                    try:
+                        got = LogToFile.load(i)
+                    except Exception as e:  # noqa: BLE001
+                        return {'what': 'load_after_replace_raised', 'index': i, 'detail': {'raised': repr(e)[:200]}}, {}
+                    if model.dbits(got['t']) != recs2[i][0] or np.asarray(got['u']).tobytes() != recs2[i][1]:
+                        return {'what': 'load_wrong_record_after_file_was_replaced', 'index': i, 'detail': {'t_returned': repr(got['t']), 'shape_returned': list(np.shape(got['u'])), 'shape_stored': [3]}}, {}
+                return None, {'outcome': 'hook reader follows the replaced file'}
+            finally:
+                LogToFile.filename = saved_name
         if case[0] == 'rerun_t0':
             r2 = _ltf_run(path, 0.0, None, 1, allow=case[2])
             s2 = crash.snapshot(path)
@@ -636,6 +662,7 @@ def ltf_cases():
     cases += [('torn_resume', 2, 1, k) for k in range(0, LTF_REC + 1)]
     cases += [('torn_resume', 3, 2, k) for k in (1, 8, LTF_REC - 1)]
     cases += [('rerun_t0', 2, False), ('rerun_t0', 2, True)]
+    cases += [('reload_after_replace', n) for n in (1, 2, 3)]
     return cases
 
 
@@ -650,7 +677,7 @@ def ltf_job(case):
 
 def ltf_signature(case, fail):
     torn = case[0] == 'torn_resume' and 0 < case[3] < LTF_REC
-    kind = 'append_after_torn_record' if torn else {'resume': 'logtofile_resume', 'torn_resume': 'logtofile_resume', 'rerun_t0': 'logtofile_rerun'}[case[0]]
+    kind = 'append_after_torn_record' if torn else {'resume': 'logtofile_resume', 'torn_resume': 'logtofile_resume', 'rerun_t0': 'logtofile_rerun', 'reload_after_replace': 'logtofile_load'}[case[0]]
     return {'kind': kind, 'what': fail['what'], 'class': 'LogToFile'}
 
 
